@@ -21,7 +21,8 @@ RULE = ("exhaustive: every multiplicity pattern (integer partition) of N=2..12 r
         "2-tuples. Oracle: literal pair counting in exact Fractions (rows equal iff equal in every column, missing == missing); "
         "metamorphic: permutation and injective relabelling invariance, 0<=pc<=1, pc == pc_n(multiplicities), pc(table[cols]) == "
         "pc_joint(table, cols), pc(a,b) == pc(b,a). Tolerance 1e-12 relative. Non-trivial: at least two distinct values each "
-        "occurring >= 2 times, or a table with >= 2 columns where two rows agree in a proper non-empty subset of the columns.")
+        "occurring >= 2 times, or a table with >= 2 columns where two rows agree in a proper non-empty subset of the columns."
+        " Scale: 120,000-1,000,000 distinct strings / integers with planted repeats (exact value by construction), one and two samples.")
 ASSUMPTIONS = ["cell text never contains '.' or '_' (the property's stated domain); consequently numeric columns are integer "
                "typed without missing cells (a missing cell would turn the column into floats whose text contains '.')",
                "string cells are never the empty string when missing cells are present in the same column "
@@ -116,6 +117,44 @@ def check_two(case, rec):
     _same("pc2-symmetry", call("pc2", pyrepseq.pc, contain(sb, cont), contain(sa, cont)), want, "swapped arguments")
     if not (0 <= float(got) <= 1):
         raise Violation("pc-range", f"pc={got}")
+
+
+def check_scale(case, rec):
+    """Samples of 10^5 .. 10^6 elements (a deeply sequenced repertoire): n distinct CDR3-like strings plus a few planted repeats, so the
+    exact value is known without counting. Anything that identifies elements by a lossy summary (a narrow hash, a truncated or
+    fixed-width key) merges some of the ~n^2/2 pairs of different strings."""
+    n, typ, cont = case["n"], case["type"], case["container"]
+    salt = case.get("salt", 0)
+    table = str.maketrans("0123456789", "ADEGHIKLMN")
+    if typ == "str":
+        distinct = ["CAS" + format(i * 7919 + salt, "d").translate(table) + "F" for i in range(n)]
+    else:
+        distinct = [i * 2654435761 + salt for i in range(n)]          # integers beyond 32 bits that differ in the high part
+    dups = case.get("dups", [])                 # [(index, extra copies), ...]
+    extra = [distinct[i % n] for i, c in dups for _ in range(c)]
+    sample = distinct + extra
+    N = len(sample)
+    mult = Counter()
+    for i, c in dups:
+        mult[i % n] += c
+    want = Fraction(sum((c + 1) * c for c in mult.values()), N * (N - 1))
+    rec.note(case, True, [typ, cont, f"n~1e{len(str(n)) - 1}", "two" if case.get("two") else "one"])
+    if case.get("two"):
+        other = [("CAW" + s[3:]) if typ == "str" else s + 1 for s in distinct[: n // 2]] + [distinct[i % n] for i, _ in dups]
+        want2 = Fraction(sum(mult[i % n] + 1 for i, _ in dups), N * len(other))
+        got2 = call("pc2", pyrepseq.pc, contain(sample, cont), contain(other, cont))
+        _same("pc2-value-at-scale", got2, want2, f"two samples of {N} and {len(other)} {typ} elements sharing {len(dups)} values")
+        return
+    got = call("pc", pyrepseq.pc, contain(sample, cont))
+    _same("pc-value-at-scale", got, want, f"{n} distinct {typ} elements plus planted repeats {dups}")
+
+
+def enum_scale(tier):
+    for j, n in enumerate([120000, 250000] if tier == "quick" else [120000, 250000, 500000, 1000000]):
+        yield {"n": n, "type": "str", "container": ["ndarray", "list"][j % 2], "dups": [], "salt": j}
+        yield {"n": n, "type": "str", "container": ["list", "series"][j % 2], "dups": [[5, 1], [n - 1, 2], [n // 2, 1]], "salt": j + 10}
+        yield {"n": n, "type": "int", "container": "ndarray", "dups": [[3, 1]], "salt": j}
+        yield {"n": n, "type": "str", "container": "list", "dups": [[7, 1], [n - 3, 1]], "two": True, "salt": j + 20}
 
 
 # ---------------------------------------------------------------------------
@@ -319,6 +358,7 @@ SUBS = [
     Sub("pairs_exhaustive", check_two, enum=enum_pairs),
     Sub("sample_random", check_one, strategy=lambda t: sample_case(t), budget=(1500, 15000)),
     Sub("two_random", check_two, strategy=lambda t: two_case(t), budget=(1500, 15000)),
+    Sub("scale", check_scale, enum=enum_scale),
     Sub("table_adversarial", check_table, enum=enum_adversarial),
     Sub("table_random", check_table, strategy=lambda t: table_case(t), budget=(1500, 15000)),
 ]
